@@ -600,6 +600,9 @@ pub fn exec_in_child(prop: &str, scenario_json: &str, timeout: Duration) -> Resu
         }
     };
     let st = child.wait().map_err(|e| e.to_string())?;
+    if st.code() == Some(2) {
+        return Err(format!("harness: scenario rejected: {}", tail(&e, 300)));
+    }
     if !st.success() {
         return Err(format!("process ended abnormally: {st}; stderr: {}", tail(&e, 300)));
     }
@@ -742,6 +745,10 @@ pub fn run_property(e: &dyn DynEngine, o: RunOpts) -> i32 {
                         false,
                     ));
                 }
+            }
+            Err(how) if how.starts_with("harness:") => {
+                eprintln!("HARNESS-ERROR stored scenario of known finding {}/{}: {how}", k.clause, k.site);
+                return 2;
             }
             Err(how) => {
                 let v = Violation::new("process-lost", "stored-scenario", how);
@@ -899,7 +906,7 @@ pub fn run_property(e: &dyn DynEngine, o: RunOpts) -> i32 {
             "scenario": serde_json::from_str::<Value>(&scen).unwrap_or(Value::Null),
             "log": log,
         });
-        let name = format!("{}-{}-{}", o.seed, first.label.replace(':', "_"), sanitize(&format!("{}-{}", key.0, key.1)));
+        let name = format!("{}-{}-{}", o.seed, sanitize(&first.label), sanitize(&format!("{}-{}", key.0, key.1)));
         let path = write_replay(prop, &name, &body);
         violation_lines.push(format!("VIOLATION property={} replay={}", prop, path.display()));
         println!("  clause={} site={} run={} occurrences={} detail={}", key.0, key.1, first.label, vs.len(), tail(&detail, 600));
